@@ -191,6 +191,10 @@ pub struct W1Scenario {
     pub prop: &'static str,
 }
 
+fn is_init_solution_case(case_seed: u64) -> bool {
+    case_seed % 12 == 5
+}
+
 pub fn allowed_features() -> gen::problem::Features {
     let mut allowed = gen::problem::Features::all();
     // required (reserved-time) breaks: the oracle judges bookkeeping and the time-independent rules of such tours only
@@ -223,33 +227,7 @@ impl W1Scenario {
         }
         rec.discarded = v.discarded.clone();
         // signature of the input domain, used to key known findings
-        let mut sig = vec![];
-        let nonmetric = features.map(|f| f.nonmetric).unwrap_or_else(|| !is_metric(&case.matrices));
-        if nonmetric {
-            sig.push("nonmetric");
-        }
-        if case.matrices.iter().any(|m| m.get("errorCodes").is_some()) {
-            sig.push(if crate::gen::problem::flags_are_closed(&case.matrices) { "unreachable-islands" } else { "unreachable-random" });
-        }
-        if serde_json::to_string(&case.problem["fleet"]).map(|t| t.contains("\"reloads\"")).unwrap_or(false) {
-            sig.push("reloads");
-        }
-        if case.problem["fleet"].get("resources").is_some() {
-            sig.push("shared-resource");
-        }
-        if case.problem["plan"].get("clustering").is_some() {
-            sig.push("clustering");
-        }
-        if case.matrices.iter().any(|m| m.get("timestamp").is_some()) {
-            sig.push("time-dependent");
-        }
-        if has_required_break(&case.problem) {
-            sig.push("required-break");
-        }
-        if case.problem["plan"].get("relations").is_some() {
-            sig.push("relations");
-        }
-        let sig = sig.join("|");
+        let sig = domain_sig(&case.problem, &case.matrices, features.map(|f| f.nonmetric));
         rec.issues = v
             .issues
             .iter()
@@ -324,6 +302,36 @@ impl W1Scenario {
     }
 }
 
+/// Structural signature of the input domain (tokens joined by '|'), used to key known findings.
+pub fn domain_sig(problem: &Value, matrices: &[Value], nonmetric: Option<bool>) -> String {
+    let mut sig = vec![];
+    if nonmetric.unwrap_or_else(|| !is_metric(matrices)) {
+        sig.push("nonmetric");
+    }
+    if matrices.iter().any(|m| m.get("errorCodes").is_some()) {
+        sig.push(if crate::gen::problem::flags_are_closed(matrices) { "unreachable-islands" } else { "unreachable-random" });
+    }
+    if serde_json::to_string(&problem["fleet"]).map(|t| t.contains("\"reloads\"")).unwrap_or(false) {
+        sig.push("reloads");
+    }
+    if problem["fleet"].get("resources").is_some() {
+        sig.push("shared-resource");
+    }
+    if problem["plan"].get("clustering").is_some() {
+        sig.push("clustering");
+    }
+    if matrices.iter().any(|m| m.get("timestamp").is_some()) {
+        sig.push("time-dependent");
+    }
+    if has_required_break(problem) {
+        sig.push("required-break");
+    }
+    if problem["plan"].get("relations").is_some() {
+        sig.push("relations");
+    }
+    sig.join("|")
+}
+
 /// True when some vehicle shift defines a required (reserved time) break.
 pub fn has_required_break(problem: &Value) -> bool {
     problem["fleet"]["vehicles"].as_array().into_iter().flatten().flat_map(|v| v["shifts"].as_array().into_iter().flatten()).flat_map(|s| s.get("breaks").and_then(|b| b.as_array()).into_iter().flatten()).any(|b| b.get("places").is_none())
@@ -363,6 +371,14 @@ impl Scenario for W1Scenario {
     }
 
     fn run_case(&self, case_seed: u64, tier: Tier) -> CaseRecord {
+        if is_init_solution_case(case_seed) {
+            // one case in twelve: a solve seeded with an initial solution (the document of a first, possibly interrupted,
+            // solve read back through read_init_solution), the way `vrp-cli solve --init-solution` does it; the returned
+            // document is judged by the same oracles
+            let mut rec = crate::scen::restart::RestartScenario.run_case(case_seed, tier);
+            rec.count("families.init_solution_cases", 1);
+            return rec;
+        }
         let (case, features) = make_case(case_seed, &self.tuning(tier));
         let mut rec = self.record(&case, Some(&features));
         if case_seed % 997 == 0 || rec.nontrivial_key.is_some() && case_seed % 61 == 0 {
@@ -373,6 +389,9 @@ impl Scenario for W1Scenario {
     }
 
     fn materialise(&self, case_seed: u64, tier: Tier) -> Value {
+        if is_init_solution_case(case_seed) {
+            return crate::scen::restart::RestartScenario.materialise(case_seed, tier);
+        }
         let (case, features) = make_case(case_seed, &self.tuning(tier));
         let mut doc = case.to_json();
         doc["features"] = json!(features.names());
@@ -381,6 +400,9 @@ impl Scenario for W1Scenario {
     }
 
     fn replay(&self, doc: &Value) -> CaseRecord {
+        if doc.get("kind").and_then(|k| k.as_str()) == Some("restart") {
+            return crate::scen::restart::RestartScenario.replay(doc);
+        }
         match W1Case::from_json(doc) {
             Some(case) => self.record(&case, None),
             None => CaseRecord { harness_error: Some("replay file is not a w1 case".into()), ..Default::default() },
@@ -388,6 +410,9 @@ impl Scenario for W1Scenario {
     }
 
     fn minimise(&self, doc: Value, rule: &str) -> Value {
+        if doc.get("kind").and_then(|k| k.as_str()) == Some("restart") {
+            return doc;
+        }
         minimise_w1(self, doc, rule)
     }
 
